@@ -160,7 +160,8 @@ PROPS["C09"] = {
               "timestamp": ["system_time_from_timestamp", "timestamp_delta_to_duration"],
               "streamname": ["decode", "from_b64"]},
     "assumptions": [
-        "only the readers in reach are decided (cell, reference, type word, pool header/data, property values, whole row streams via Table::read_rows); allocation of the row vectors is modelled as succeeding (at most 65536 rows); the unwrap()s on catalog cells in Package::open, exec call sites, the FFI expect, and hangs/aborts from huge allocation requests are NOT covered",
+        "only the readers in reach are decided (cell, reference, type word, pool header/data, property values, whole row streams via Table::read_rows); allocation of the row vectors is modelled as succeeding (at most 65536 rows); exec call sites, the FFI expect, and hangs/aborts from huge allocation requests are NOT covered",
+        "group opencat (rule X15): seven BLOCKS of statements of Package::open -- the bodies of the loops that read _Tables, _Columns and _Validation, and the parts of the column-construction loop that read the Nullable flag, the value range and the foreign key -- are extracted as functions whose parameters (the block's free variables) are declared in the template; everything else of Package::open is dropped. Proved: no block panics (no unwrap on a null cell, no index out of range) for any row with the table's number of cells, and a null cell in a place that needs a value is an error (found and fixed: D20, the cells were unwrapped). Assumed about a row: one cell per column, and in integer / string columns an integer-or-null / string-or-null cell (what Table::read_rows and the cell readers are proved to hand out: groups rows, readers); ValueRef::to_value is imported (group pool); ColumnBuilder::nullable / range / foreign_key are opaque stubs; HashMap / HashSet calls are vstd's. The category / enumeration cells, the column-number completeness checks and the rest of Package::open are NOT covered",
     ],
 }
 
@@ -231,8 +232,10 @@ PROPS["C15"]["probes"] = dict(FAULT_PROBES, **{fn: ["readfaults"] for fn in ["St
 PROPS["C15"]["verus"]["readers"] = ["StringRef::read", "ColumnType::read_value", "Timestamp::read_from", "PropertyValue::read", "StringPoolBuilder::read_from_pool",
                                     "StringPoolBuilder::build_from_data", "PropertySet::read"]
 PROPS["C15"]["verus"]["rows"] = ["Table::read_rows"]
-PROPS["C09"]["verus"]["opencat"] = ["Package::vx_open_tables_row", "Package::vx_open_columns_row_name", "Package::vx_open_columns_row_cells", "Value::as_str", "Value::as_int"]
-PROPS["C09"]["probes"] = {"Package::vx_open_tables_row": ["catalognull"], "Package::vx_open_columns_row_name": ["catalognull"], "Package::vx_open_columns_row_cells": ["catalognull"], "StringPoolBuilder::build_from_data": ["zerorc"], "StringPool::decref": ["dangling"], "ValueRef::remove": ["dangling"]}
+OPENCAT_BLOCKS = ["Package::vx_open_tables_row", "Package::vx_open_columns_row_name", "Package::vx_open_columns_row_cells", "Package::vx_open_validation_row",
+                  "Package::vx_open_nullable_cell", "Package::vx_open_range_cells", "Package::vx_open_key_cells"]
+PROPS["C09"]["verus"]["opencat"] = OPENCAT_BLOCKS + ["catalog_str", "catalog_int", "Value::as_str", "Value::as_int", "Value::is_null"]
+PROPS["C09"]["probes"] = dict({b: ["catalognull"] for b in OPENCAT_BLOCKS}, **{"StringPoolBuilder::build_from_data": ["zerorc"], "StringPool::decref": ["dangling"], "ValueRef::remove": ["dangling"]})
 PROPS["C08"]["probes"] = {"StringPool::decref": ["dangling"], "ValueRef::remove": ["dangling"]}
 PROPS["C02"]["probes"] = {"StringPoolBuilder::build_from_data": ["zerorc"]}
 PROPS["C07"]["probes"] = {"Category::validate": ["category"]}
